@@ -10,7 +10,7 @@ open Conv
 open Drv
 
 let cmp_tok c = tok_of_n (cmp_to_N c)
-let ncmp a b = let c = Z.compare (z_of_n a) (z_of_n b) in if c < 0 then "0" else if c = 0 then "1" else "2"
+let ncmp a b = let c = ZA.compare (z_of_n a) (z_of_n b) in if c < 0 then "0" else if c = 0 then "1" else "2"
 
 let eval inp obs =
   match inp with
